@@ -76,7 +76,7 @@ partial def loop (h : IO.FS.Stream) (out : IO.FS.Stream) (st : DState) : IO Unit
       out.putStrLn r
       loop h out st'
     | none =>
-      out.putStrLn (match parseStep op f with | some r => r | none => match hypStep op f with | some r => r | none => match pypiStep op f with | some r => r | none => dispatch op f)
+      out.putStrLn (match parseStep op f with | some r => r | none => match hypStep op f with | some r => r | none => match pypiStep op f with | some r => r | none => match absStep op f with | some r => r | none => dispatch op f)
       loop h out st
   | [] => loop h out st
 
